@@ -30,12 +30,13 @@ fi
 res "DEMO_WITH_PATCH=$demo_with EXISTING_SUITE_WITH_PATCH=$suite DEMO_WITHOUT_PATCH=$demo_without"
 # our check against /repo with the patch
 check_rc=na; check_sigs=""
-if [ $applied = 1 ] && git -C /repo apply --check $src/patch.diff 2>/dev/null; then
+if [ "${SKIP_CHECK:-0}" != 1 ] && [ $applied = 1 ] && git -C /repo apply --check $src/patch.diff 2>/dev/null; then
   git -C /repo apply $src/patch.diff
-  cout=$(cd /verif && ./check $prop --tier quick 2>&1); check_rc=$?
+  cout=$(cd /verif && env -u CARGO_TARGET_DIR ./check $prop --tier quick 2>&1); check_rc=$?
   check_sigs=$(echo "$cout" | grep -oE "signature=[^ ]+" | sort -u | tr '\n' ' ')
+  echo "--- ./check $prop output (patched /repo) ---" >> $log; echo "$cout" | cut -c1-400 | tail -25 >> $log
   git -C /repo checkout -q -- .
-  (cd /verif && ./check $prop --tier quick >/dev/null 2>&1)   # restore evidence from the unchanged tree
+  (cd /verif && env -u CARGO_TARGET_DIR ./check $prop --tier quick >/dev/null 2>&1)   # restore evidence from the unchanged tree
 fi
 res "CHECK_EXIT=$check_rc SIGS=$check_sigs"
 mkdir -p $out
